@@ -463,6 +463,10 @@ fn do_spawn(plan: &Plan, spec: &SpawnSpec, si: usize, pool: &Pool, boot: &[usize
                 Expect::Start(img) => {
                     if !fault_fired {
                         violate("spawn_failed", format!("spawn_failed/errno={:?}", code), format!("{}: failed with {:?} although {:?} can be started", ctx, e, String::from_utf8_lossy(img)));
+                        if mo.cands.len() > 1 {
+                            // the search gave up although a later PATH entry holds a startable candidate
+                            violate("wrong_candidate", format!("wrong_candidate/gave_up/errno={:?}", code), format!("{}: PATH search failed with {:?} although candidate {:?} can be started (candidates in order: {:?})", ctx, e, String::from_utf8_lossy(img), mo.cands.iter().map(|c| String::from_utf8_lossy(c).into_owned()).collect::<Vec<_>>()));
+                        }
                         if code == Some(libc::EPERM) && spec.setuid.is_some() && spec.setgid.is_some() {
                             violate("ids", "ids/requested=uid+gid/errno=EPERM".into(), format!("{}: both setuid({:?}) and setgid({:?}) were requested by root; the launch failed with EPERM", ctx, spec.setuid, spec.setgid));
                         }
